@@ -379,10 +379,18 @@ func sameInfo(a, b map[string][2]uint64) bool {
 }
 
 // runHistory drives one history on a fresh node and returns the steps with observations.
-func runHistory(c *Ctx, im *Impl, r *Rng, hlen int) (conns []string, steps []step, kinds []string) {
+type scripted struct {
+	U    netceptor.VerifRoutingUpdate
+	Recv string
+}
+
+func runHistory(c *Ctx, im *Impl, r *Rng, hlen int, script []scripted) (conns []string, steps []step, kinds []string) {
 	nconn := r.Intn(5)
 	if r.Chance(70) && nconn == 0 {
 		nconn = 1 + r.Intn(3)
+	}
+	if script != nil {
+		nconn, hlen = 2, len(script)
 	}
 	for i := 0; i < nconn; i++ {
 		conns = append(conns, fmt.Sprintf("c%d", i))
@@ -397,7 +405,7 @@ func runHistory(c *Ctx, im *Impl, r *Rng, hlen int) (conns []string, steps []ste
 	prev := w.observe()
 	relayedSinceExpiry := map[string]bool{}
 	for i := 0; i < hlen; i++ {
-		if len(prev.Seen) > 0 && r.Chance(6) {
+		if script == nil && len(prev.Seen) > 0 && r.Chance(6) {
 			id := prev.Seen[r.Intn(len(prev.Seen))]
 			w.n.VerifExpireSeenUpdate(id)
 			o := w.observe()
@@ -407,7 +415,12 @@ func runHistory(c *Ctx, im *Impl, r *Rng, hlen int) (conns []string, steps []ste
 			prev = o
 			continue
 		}
-		u, recv, kind := g.update()
+		u, recv, kind := netceptor.VerifRoutingUpdate{}, "", ""
+		if script != nil {
+			u, recv, kind = script[i].U, script[i].Recv, "scripted"
+		} else {
+			u, recv, kind = g.update()
+		}
 		w.n.VerifHandleRoutingUpdate(u, recv)
 		o := w.observe()
 		steps = append(steps, step{Kind: "recv", U: u, Recv: recv, O: o})
@@ -511,43 +524,91 @@ func run(c *Ctx) {
 	for h := 0; h < nh; h++ {
 		r := NewRng(c.Seed*1000003 + uint64(h))
 		hlen := 1 + r.Intn(40)
-		conns, steps, kinds := runHistory(c, im, r, hlen)
-		nm := newNames()
-		for _, cn := range conns {
-			nm.id(cn)
-		}
-		var hs []string
-		stale, fresh := false, false
-		for i, s := range steps {
-			if s.Kind == "expire" {
-				hs = append(hs, fmt.Sprintf("(Expire %d, %s)", nm.id("upd:"+s.ID), coqObs(nm, s.O)))
-			} else {
-				hs = append(hs, fmt.Sprintf("(Recv %s %d, %s)", coqUpd(nm, s.U), nm.id(s.Recv), coqObs(nm, s.O)))
-			}
-			k := kinds[i]
-			if strings.HasPrefix(k, "equal") || strings.HasPrefix(k, "older") || strings.HasPrefix(k, "lower") || strings.HasPrefix(k, "replayed") {
-				stale = true
-			}
-			if strings.HasPrefix(k, "fresh") || strings.HasPrefix(k, "higher") {
-				fresh = true
-			}
-		}
-		cs := make([]string, len(conns))
-		for i, cn := range conns {
-			cs[i] = CoqN(nm.id(cn))
-		}
-		init := fmt.Sprintf("{| ns_self := 1; ns_epoch := %d; ns_conns := %s; ns_info := []; ns_known := []; ns_seen := []; ns_down := false |}", selfEpoch, CoqList(cs))
+		conns, steps, kinds := runHistory(c, im, r, hlen, nil)
 		label := fmt.Sprintf("history seed=%d#%d conns=%v kinds=%v", c.Seed, h, conns, kinds)
-		cf.Add(fmt.Sprintf("{| fc_init := %s; fc_hist := %s |}", init, CoqList(hs)), label)
+		stale, fresh := emitCase(cf, conns, steps, kinds, label)
 		im.Count(label, stale && fresh)
 		im.Hist(fmt.Sprintf("history-length:%02d-%02d", len(steps)/10*10, len(steps)/10*10+9))
 		if h < 3 {
 			im.Sample(map[string]interface{}{"conns": conns, "kinds": kinds})
 		}
 	}
+	if c.Thorough() {
+		exhaustiveSmall(c, im, cf)
+	}
 	meshFloodBound(c, im)
 	Must(cf.Write())
 	Must(im.Write(c.Out))
+}
+
+
+// emitCase writes one history with its observations as a Coq case.
+func emitCase(cf *CaseFile, conns []string, steps []step, kinds []string, label string) (stale, fresh bool) {
+	nm := newNames()
+	for _, cn := range conns {
+		nm.id(cn)
+	}
+	var hs []string
+	for i, s := range steps {
+		if s.Kind == "expire" {
+			hs = append(hs, fmt.Sprintf("(Expire %d, %s)", nm.id("upd:"+s.ID), coqObs(nm, s.O)))
+		} else {
+			hs = append(hs, fmt.Sprintf("(Recv %s %d, %s)", coqUpd(nm, s.U), nm.id(s.Recv), coqObs(nm, s.O)))
+		}
+		k := kinds[i]
+		if strings.HasPrefix(k, "equal") || strings.HasPrefix(k, "older") || strings.HasPrefix(k, "lower") || strings.HasPrefix(k, "replayed") {
+			stale = true
+		}
+		if strings.HasPrefix(k, "fresh") || strings.HasPrefix(k, "higher") {
+			fresh = true
+		}
+	}
+	cs := make([]string, len(conns))
+	for i, cn := range conns {
+		cs[i] = CoqN(nm.id(cn))
+	}
+	init := fmt.Sprintf("{| ns_self := 1; ns_epoch := %d; ns_conns := %s; ns_info := []; ns_known := []; ns_seen := []; ns_down := false |}", selfEpoch, CoqList(cs))
+	cf.Add(fmt.Sprintf("{| fc_init := %s; fc_hist := %s |}", init, CoqList(hs)), label)
+	return
+}
+
+// exhaustiveSmall (thorough tier): EVERY sequence of length 4 over six fixed updates of two
+// origins (two sequence numbers and a restart with a higher epoch for the first origin, two
+// updates of the second origin, one update of a third), i.e. all orders with duplication and
+// loss: 6^4 = 1296 histories, each on a fresh real node.
+func exhaustiveSmall(c *Ctx, im *Impl, cf *CaseFile) {
+	mk := func(o, id string, e, s uint64, conns map[string]float64) netceptor.VerifRoutingUpdate {
+		return netceptor.VerifRoutingUpdate{NodeID: o, UpdateID: id, UpdateEpoch: e, UpdateSequence: s, Connections: conns, ForwardingNode: "c0"}
+	}
+	alpha := []netceptor.VerifRoutingUpdate{
+		mk("r0", "a1", 500, 1, map[string]float64{"c0": 1}),
+		mk("r0", "a2", 500, 2, map[string]float64{"c0": 1, "r1": 2}),
+		mk("r0", "a3", 501, 1, map[string]float64{"r1": 2}),
+		mk("r1", "b1", 500, 1, map[string]float64{"r0": 2}),
+		mk("r1", "b2", 500, 2, map[string]float64{}),
+		mk("c1", "d1", 7, 1, map[string]float64{"self": 1, "r0": 1}),
+	}
+	n := len(alpha)
+	total := n * n * n * n
+	r := NewRng(c.Seed)
+	for x := 0; x < total; x++ {
+		var sc []scripted
+		for k, y := 0, x; k < 4; k, y = k+1, y/n {
+			recv := "c0"
+			if (x+k)%3 == 0 {
+				recv = "c1"
+			}
+			u := alpha[y%n]
+			u.ForwardingNode = recv
+			sc = append(sc, scripted{u, recv})
+		}
+		conns, steps, kinds := runHistory(c, im, r, 4, sc)
+		label := fmt.Sprintf("exhaustive %d", x)
+		emitCase(cf, conns, steps, kinds, label)
+		im.Count(label, true)
+	}
+	im.Hist("exhaustive-small-scope-histories")
+	im.Extra["exhaustive_small_scope"] = fmt.Sprintf("all %d sequences of length 4 over %d fixed updates", total, n)
 }
 
 // meshFloodBound: real nodes on random cyclic topologies; every routing message on every link
